@@ -1,6 +1,6 @@
 # Copyright (c) 2023 Graphcore Ltd. All rights reserved.
 import logging
-from typing import Any, Callable, Dict, List, Optional, Tuple, TypeVar
+from typing import Any, Callable, Dict, List, Optional, TypeVar
 
 import torch.nn.functional as F
 from torch import Tensor, nn
@@ -10,7 +10,7 @@ from torch.fx.node import Node
 
 from .. import functional as U
 from .._internal_utils import generate__all__
-from ..formats import FPFormat, format_to_tuple, tuple_to_format
+from ..formats import FormatTuple, FPFormat, format_to_tuple, tuple_to_format
 from .utils import Backend, apply_transform, replace_node_with_function
 
 logger = logging.getLogger(__name__)
@@ -22,8 +22,8 @@ def _quantised_linear(
     input: Tensor,
     weight: Tensor,
     bias: Optional[Tensor],
-    fwd_format_tuple: Tuple[int, int],
-    bwd_format_tuple: Tuple[int, int],
+    fwd_format_tuple: FormatTuple,
+    bwd_format_tuple: FormatTuple,
 ) -> Tensor:
     fwd_format = tuple_to_format(fwd_format_tuple)
     bwd_format = tuple_to_format(bwd_format_tuple)
@@ -37,8 +37,8 @@ def _quantised_u_linear(
     input: Tensor,
     weight: Tensor,
     bias: Optional[Tensor],
-    fwd_format_tuple: Tuple[int, int],
-    bwd_format_tuple: Tuple[int, int],
+    fwd_format_tuple: FormatTuple,
+    bwd_format_tuple: FormatTuple,
     constraint: Optional[str] = "to_output_scale",
 ) -> Tensor:
     fwd_format = tuple_to_format(fwd_format_tuple)
@@ -52,8 +52,8 @@ def _quantised_scaled_dot_product_attention(
     query: Tensor,
     key: Tensor,
     value: Tensor,
-    fwd_format_tuple: Tuple[int, int],
-    bwd_format_tuple: Tuple[int, int],
+    fwd_format_tuple: FormatTuple,
+    bwd_format_tuple: FormatTuple,
     **kwargs: Any,
 ) -> Tensor:
     fwd_format = tuple_to_format(fwd_format_tuple)
@@ -67,8 +67,8 @@ def _quantised_u_scaled_dot_product_attention(
     query: Tensor,
     key: Tensor,
     value: Tensor,
-    fwd_format_tuple: Tuple[int, int],
-    bwd_format_tuple: Tuple[int, int],
+    fwd_format_tuple: FormatTuple,
+    bwd_format_tuple: FormatTuple,
     **kwargs: Any,
 ) -> Tensor:
     fwd_format = tuple_to_format(fwd_format_tuple)
